@@ -946,6 +946,27 @@ func DMLCases(yield func(name string, s S)) {
 		yield("merge", Mrg{Target: "t1", TargetAlias: "a1", TargetAs: m%2 == 0, Source: "t2", SourceAlias: "a2", On: on, Whens: ws}.Build())
 	}
 	yield("merge-noalias", Mrg{Target: "t1", Source: "t2", On: Bin("=", QCol("t1", "c1"), QCol("t2", "c1")), Whens: whens[:1]}.Build())
+	// every documented (clause kind, action) combination, with and without a condition, alone and in every ordered pair
+	cond := func() *X { return xp(Bin(">", QCol("a2", "c3"), Int("0"))) }
+	set := []Assign{{"c2", QCol("a2", "c2")}}
+	var combos []MergeWhen
+	for _, c := range []*X{nil, cond()} {
+		combos = append(combos,
+			MergeWhen{Type: "MATCHED", Cond: c, Action: "UPDATE", Set: set},
+			MergeWhen{Type: "MATCHED", Cond: c, Action: "DELETE"},
+			MergeWhen{Type: "NOT MATCHED", Cond: c, Action: "INSERT", Cols: []string{"c1"}, Vals: []X{QCol("a2", "c1")}},
+			MergeWhen{Type: "NOT MATCHED BY SOURCE", Cond: c, Action: "UPDATE", Set: set},
+			MergeWhen{Type: "NOT MATCHED BY SOURCE", Cond: c, Action: "DELETE"},
+		)
+	}
+	for i, a := range combos {
+		yield("merge-combo", Mrg{Target: "t1", TargetAlias: "a1", Source: "t2", SourceAlias: "a2", On: on, Whens: []MergeWhen{a}}.Build())
+		for j, b := range combos {
+			if i != j {
+				yield("merge-combo2", Mrg{Target: "t1", TargetAlias: "a1", Source: "t2", SourceAlias: "a2", On: on, Whens: []MergeWhen{a, b}}.Build())
+			}
+		}
+	}
 }
 
 // HoleShapes yields every hole filled with every one-operator expression.
